@@ -337,12 +337,222 @@ def run_pixels(tier, case, res):
     return res
 
 
+def rust_inputs():
+    """Symbolic inputs of harness_lcd_*: the same variables as the Python harness (on/start/page/y/busy, VRAM arrays)."""
+    ins = {}
+    st = []
+    for chip in (0, 1):
+        arr = z3.Array(f"vram{chip}", z3.BitVecSort(16), z3.BitVecSort(8))
+        base = 100 + chip * 10
+        ins[base] = z3.ZeroExt(31, z3.BitVec(f"on{chip}", 1))
+        ins[base + 1] = z3.ZeroExt(26, z3.BitVec(f"start{chip}", 6))
+        ins[base + 2] = z3.ZeroExt(29, z3.BitVec(f"page{chip}", 3))
+        ins[base + 3] = z3.ZeroExt(26, z3.BitVec(f"y{chip}", 6))
+        ins[base + 4] = z3.ZeroExt(31, z3.BitVec(f"busy{chip}", 1))
+        for i in range(512):
+            ins[1000 + chip * 1000 + i] = z3.ZeroExt(24, z3.Select(arr, bv(i, 16)))
+        st.append({"on": z3.BitVec(f"on{chip}", 1) == 1, "busy": z3.BitVec(f"busy{chip}", 1) == 1, "start": z3.BitVec(f"start{chip}", 6),
+                   "page": z3.BitVec(f"page{chip}", 3), "y": z3.BitVec(f"y{chip}", 6), "vram": arr})
+    return ins, st
+
+
+def spec_display_byte(st, page, col):
+    """VRAM byte shown at display page/column by the documented layout (as spec_pixel, whole bytes)."""
+    chip, p, c, _bit = spec_pixel(page * 8, col)
+    return z3.Select(st[chip]["vram"], bv(p * 64 + c, 16))
+
+
+_RS_SNAP = {}
+
+
+def _vars(t):
+    out, seen, todo = set(), set(), [t]
+    while todo:
+        x = todo.pop()
+        if x.get_id() in seen:
+            continue
+        seen.add(x.get_id())
+        if z3.is_const(x) and x.decl().kind() == z3.Z3_OP_UNINTERPRETED:
+            out.add(str(x))
+        todo.extend(x.children())
+    return out
+
+
+def _rust_prepared(img, ins, busy):
+    """Run harness_lcd_prepare once (fork-free: the busy flags are concrete per class) and keep the machine snapshot."""
+    from engines.rsym import interp
+
+    if busy not in _RS_SNAP:
+        hooks = {"verif_in": lambda m, i: ins.get(i, 0), "verif_out": lambda m, i, v: None, "verif_load": lambda m, a: 0, "verif_store": lambda m, a, v: None}
+        m = interp.Machine(img, hooks)
+        m.STEP_LIMIT = 40_000_000
+        m.run(img.mod.functions["harness_lcd_prepare"], [])
+        # the two 512-byte VRAM blocks now hold Select(vramN, k) byte by byte: find them and switch them to array mode
+        # over vramN itself, so that symbolic page/column accesses are single array reads instead of 512-way merges
+        where = {0: {}, 1: {}}
+        for a, c in m.mem.items():
+            if type(c) is int:
+                continue
+            t = z3.simplify(c if type(c) is not tuple else z3.Extract(8 * c[1] + 7, 8 * c[1], c[0]))
+            if t.decl().kind() == z3.Z3_OP_SELECT and z3.is_bv_value(t.arg(1)) and str(t.arg(0)) in ("vram0", "vram1"):
+                where[int(str(t.arg(0))[-1])].setdefault(t.arg(1).as_long(), []).append(a)
+        for chip in (0, 1):
+            locs = where[chip]
+            if sorted(locs) != list(range(512)) or any(len(v) != 1 for v in locs.values()):
+                raise RuntimeError(f"VRAM of chip {chip} not found as one 512-byte block after preparation")
+            base = locs[0][0]
+            if any(locs[k][0] != base + k for k in range(512)):
+                raise RuntimeError(f"VRAM of chip {chip} is not laid out page-major/contiguous")
+            arr = z3.Array(f"vram{chip}", z3.BitVecSort(16), z3.BitVecSort(8))
+            m.adopt_array(base, 512, lambda off, arr=arr: z3.Select(arr, z3.Extract(15, 0, off)))
+        # the four register cells per chip are found the same way: the one heap byte whose contents mention only that input
+        fields = {}
+        for a, c in m.mem.items():
+            if type(c) is int or a < interp.HEAP_BASE or a >= m.heap:
+                continue
+            t = z3.simplify(c if type(c) is not tuple else z3.Extract(8 * c[1] + 7, 8 * c[1], c[0]))
+            names = _vars(t)
+            if len(names) == 1:
+                (nm,) = names
+                if nm[:-1] in ("on", "start", "page", "y"):
+                    fields.setdefault(nm, []).append(a)
+        for chip in (0, 1):
+            for f in ("on", "start", "page", "y"):
+                if len(fields.get(f"{f}{chip}", [])) != 1:
+                    raise RuntimeError(f"register cell {f}{chip} not located uniquely in the controller object: {fields.get(f'{f}{chip}')}")
+        vbase = {chip: [o for o in m.arrays][chip][0] for chip in (0, 1)}
+        _RS_SNAP[busy] = (m.snapshot(), m.steps, {k: v[0] for k, v in fields.items()}, vbase)
+    return _RS_SNAP[busy]
+
+
+def run_rust_case(item):
+    tier, case, busy = item
+    X.setup()
+    from engines.rsym import build, interp
+
+    img, _b = build.image()
+    key = f"rust:{case}:busy={busy[0]}{busy[1]}"
+    res = {"key": key, "paths": 0, "obligations": 0, "discharged": 0, "unknown": 0, "cex": [], "solver_time": 0.0, "samples": [], "inconclusive": []}
+    ins, st0 = rust_inputs()
+    for chip in (0, 1):
+        ins[100 + chip * 10 + 4] = busy[chip]
+        st0[chip]["busy"] = z3.BoolVal(bool(busy[chip]))
+    addr = z3.BitVec("addr", 16)
+    val = z3.BitVec("val", 8)
+    entry = "harness_lcd_pixels2" if case == "pixels" else "harness_lcd_op2"
+    snap, prep_steps, fields, vbase = _rust_prepared(img, ins, busy)
+    if case != "pixels":
+        ins[200] = 0 if case == "write" else 1
+        ins[201] = z3.ZeroExt(16, addr)
+        ins[202] = z3.ZeroExt(24, val)
+
+    def fn():
+        out = {}
+        hooks = {"verif_in": lambda m, i: ins.get(i, 0), "verif_out": lambda m, i, v: out.__setitem__(i, v),
+                 "verif_load": lambda m, a: 0, "verif_store": lambda m, a, v: None}
+        m = interp.Machine(img, hooks)
+        m.STEP_LIMIT = 40_000_000
+        m.resume(snap)
+        m.run(img.mod.functions[entry], [])
+        post = {nm: m.load_bytes(a, 1) for nm, a in fields.items()}
+        for chip in (0, 1):
+            post[f"vram{chip}"] = next(o[2] for o in m.arrays if o[0] == vbase[chip])
+        return out, m.steps + prep_steps, post
+
+    try:
+        paths, stats = explore(fn, max_paths=3000, deadline_s=900, timeout_ms=10000)
+    except core.PathLimit as e:
+        res["inconclusive"].append(str(e))
+        return res
+    res["paths"] = len(paths)
+    res["solver_time"] += stats.solver_time
+    T = interp.to_term
+    for p in paths:
+        if p.status != "ok":
+            if p.status == "inconclusive":
+                res["inconclusive"].append(p.detail[:100])
+            else:
+                res["cex"].append({"key": f"{key}|raises|{type(p.exc).__name__}", "summary": repr(p.exc)[:200], "payload": None})
+            continue
+        out, steps, post = p.value
+        checks = []
+        if case == "pixels":
+            # one obligation per (chip, display start line): the 6-bit start line is case-split, the 8192 VRAM bits stay symbolic
+            per_chip = {0: [], 1: []}
+            for row in range(32):
+                for col in range(240):
+                    chip, page, c, bit = spec_pixel(row, col)
+                    # the Rust display buffer scrolls each chip by its display start line (HD61202 "display start line":
+                    # display line d shows RAM line (d + start) mod 64) and does not gate on the on flag; for every start
+                    # line the pixel is one VRAM bit of the chip/column spec_pixel names
+                    yv = bv(page * 8 + bit, 6) + st0[chip]["start"]
+                    byte = z3.Select(st0[chip]["vram"], z3.Concat(bv(0, 7), z3.Extract(5, 3, yv), bv(c, 6)))
+                    want = (z3.LShR(byte, z3.ZeroExt(5, z3.Extract(2, 0, yv))) & 1) == 0
+                    per_chip[chip].append(T(out[50_000 + row * 240 + col], 32) != z3.If(want, bv(1, 32), bv(0, 32)))
+            for chip in (0, 1):
+                neg = z3.Or(*per_chip[chip])
+                for k in range(64):
+                    negk = z3.simplify(z3.substitute(neg, (st0[chip]["start"], bv(k, 6))))
+                    checks.append((f"pixels chip{chip} start_line={k}", negk, [st0[chip]["start"] == k]))
+        else:
+            if case == "write":
+                spec = spec_write(st0, addr, val)
+                has, v = z3.BoolVal(False), bv(0, 8)
+            else:
+                spec, has, v = spec_read(st0, addr)
+            r = T(out[0], 32)
+            if case == "read":
+                checks.append(("read-value", r != z3.If(has, z3.ZeroExt(24, v), bv(0x100, 32))))
+            k = z3.BitVec("x_vram", 16)
+            for chip in (0, 1):
+                sp = spec[chip]
+                checks.append((f"chip{chip}.on", (T(post[f"on{chip}"], 8) != 0) != sp["on"]))
+                checks.append((f"chip{chip}.start_line", T(post[f"start{chip}"], 8) != z3.ZeroExt(2, sp["start"])))
+                checks.append((f"chip{chip}.page", T(post[f"page{chip}"], 8) != z3.ZeroExt(5, sp["page"])))
+                checks.append((f"chip{chip}.column", T(post[f"y{chip}"], 8) != z3.ZeroExt(2, sp["y"])))
+                checks.append((f"chip{chip}.vram", z3.And(z3.ULT(k, 512), z3.Select(post[f"vram{chip}"], bv(vbase[chip], 64) + z3.ZeroExt(48, k)) != z3.Select(sp["vram"], k))))
+                # busy (and on, again) through the protocol: a status read after the operation
+                a_st = bv(0x2000 | ((2 if chip == 0 else 1) << 2) | 0b01, 16)
+                _s3, _h3, v3 = spec_read(spec, a_st)
+                checks.append((f"chip{chip}.status (busy/on)", T(out[20 + chip], 32) != z3.ZeroExt(24, v3)))
+                checks.append((f"chip{chip}.stats.on", (T(out[40 + chip], 32) != 0) != sp["on"]))
+        for chk in checks:
+            name, neg = chk[0], chk[1]
+            res["obligations"] += 1
+            if z3.is_false(neg):
+                r_, m_, dt = "unsat", None, 0.0
+            else:
+                r_, m_, dt = X.solve(list(p.constraints) + (chk[2] if len(chk) > 2 else []), [neg])
+            res["solver_time"] += dt
+            if r_ == "unsat":
+                res["discharged"] += 1
+                if len(res["samples"]) < 1:
+                    res["samples"].append({"case": key, "obligation": name, "rust_ir_steps": steps, "negated_post_head": neg.sexpr()[:140]})
+            elif r_ == "sat":
+                payload = _payload(case, name, m_)
+                payload["rust"] = True
+                payload["busy"] = list(busy)
+                payload["key"] = f"{key}|{name}"
+                a_ = payload["ops"]["addr"]
+                cls = f"rw={a_ & 1},di={(a_ >> 1) & 1},cs={(a_ >> 2) & 3}" if case != "pixels" else "-"
+                res["cex"].append({"key": f"{key}|{cls}|{name.split(' (')[0]}", "summary": f"{key}: {name} ops={payload['ops']}", "payload": payload})
+            else:
+                res["unknown"] += 1
+    return res
+
+
 def main(tier):
     t0 = time.time()
     X.setup()
     rep = common.Report("C15")
     cases = ["write", "read", "pixels"] + [f"seq:{a}:{b}:{c}" for a in ("0", "8") for b in ("2", "6") for c in ("7", "B", "5", "9")]
-    results = common.pool_map(run_case, [(tier, c) for c in cases])
+    from engines.rsym import build
+
+    build.ensure_built()
+    build.image()
+    rs_items = [(tier, c, (b0, b1)) for c in ("write", "read", "pixels") for b0 in (0, 1) for b1 in (0, 1)]
+    results = common.pool_map(run_case, [(tier, c) for c in cases]) + common.pool_map(run_rust_case, rs_items)
+    cases = cases + [f"rust:{c}:busy={b[0]}{b[1]}" for _t, c, b in rs_items]
     tot = {k: 0 for k in ("paths", "obligations", "discharged", "unknown")}
     solver_time = 0.0
     samples, inconcl, cex = [], [], {}
@@ -375,9 +585,10 @@ def main(tier):
         "explanation": "Inductive step over arbitrary controller states: z3 decides, for all 16-bit addresses (both windows, all low-nibble decodings, addresses outside the windows) and all values, that chip state, VRAM and returned value equal the HD61202 protocol spec; all 7680 pixels of get_display_buffer are decided equal to NOT(their VRAM bit) AND chip-on for fully symbolic VRAM; the documented map is injective and column-local.",
         "solver_time_s": round(solver_time, 2),
         "functions_encoded": ["pce500.display.hd61202.decode_access/parse_command/HD61202.write_instruction/write_data/read_data/read_instruction_status",
-                              "pce500.display.pipeline.LCDPipeline.apply/_apply_command", "pce500.display.controller_wrapper.HD61202Controller.read/write/get_display_buffer"],
+                              "pce500.display.pipeline.LCDPipeline.apply/_apply_command", "pce500.display.controller_wrapper.HD61202Controller.read/write/get_display_buffer",
+                              "Rust (LLVM IR): sc62015_core::lcd::LcdController::new/write/read/display_buffer/display_vram_bytes/stats, decode_access, parse_command, Hd61202Chip::*"],
         "bounds": {"operations": "1 operation from an arbitrary state (induction) + one 3-operation sequence", "pixels": "all 240x32, exhaustive",
-                   "rust_model": "sc62015/core/src/lcd.rs is outside this check until the rsym engine carries LcdController"},
+                   "rust_model": "LcdController::write/read/display_buffer/display_vram_bytes from the crate's LLVM IR; the private chip state is driven to an arbitrary state through the protocol itself (1024 symbolic data writes + mode writes) and observed through follow-up protocol reads"},
     }
     assumptions = ["stubs: numpy.zeros + item assignment replaced by a 32x240 grid for get_display_buffer; HD61202.vram replaced by a z3-array-backed grid",
                    "HD61202.vram_pc_source (PC provenance bookkeeping) replaced by a sink", "chip state invariant: page < 8, column < 64, start line < 64 (established by parse_command's masks)"]
